@@ -150,6 +150,8 @@ func checkC19(c *Check) {
 		}
 	}
 	c.Floor("IncLogins call sites", 2, ninc)
+	// one pass of the dispatcher per delivered line
+	c.Floor("functions between the ingester callback and the dispatcher", 2, lineReachesDispatcher(c))
 	// IncLogins faithful
 	incFaithful(c, inc)
 }
